@@ -103,6 +103,30 @@ def conflicts(prog):
                 if rel is not None:
                     out.append(("redeclaration", name, rel))
                 local.setdefault(name, it[2])
+            elif it[0] == "stmtdecl":
+                # `if (c) T name = v;` / `for (int j..) T name = v;` / `while (c) T name = v;`: the statement is a scope of
+                # its own that holds the name (and a for header variable); nothing of it is visible afterwards
+                _, skind, name, ty, val = it
+                rel = None
+                if skind == "for" and name == "jj":
+                    rel = "same-scope"
+                elif name in local:
+                    rel = "enclosing-scope"
+                else:
+                    for kind, names in reversed(chain[:-1]):
+                        if name in names:
+                            rel = "enclosing-" + ("loop-header" if kind == "forhdr" else ("function" if kind == "fn" else "scope"))
+                            break
+                    if rel is None and name in base:
+                        rel = base[name]
+                if rel is not None:
+                    out.append(("redeclaration", name, "unbraced-body:" + rel))
+                if skind == "for":
+                    for kind, names in chain:
+                        if "jj" in names:
+                            out.append(("redeclaration", "jj", "enclosing-scope"))
+                    if "jj" in base:
+                        out.append(("redeclaration", "jj", base["jj"]))
             elif it[0] in ("use", "bump"):
                 name = it[1]
                 vis = name in base or any(name in names for _, names in chain)
@@ -164,6 +188,18 @@ def to_module(prog, types_of=None):
         env = dict(env)
         out = []
         for it in sc.items:
+            if it[0] == "stmtdecl":
+                _, skind, name, ty, val = it
+                d = Decl(ty, name, _lit(ty, val))
+                if skind == "if":
+                    out.append(If(Bin(">", Var("p", INT), IntLit(0), INT), d))
+                elif skind == "ifelse":
+                    out.append(If(Bin(">", Var("p", INT), IntLit(0), INT), d, Decl(ty, name, _lit(ty, val + 1))))
+                elif skind == "for":
+                    out.append(For(Decl(INT, "jj", IntLit(0)), Bin("<", Var("jj", INT), IntLit(2), INT), Affix("++", True, Var("jj", INT)), d))
+                else:
+                    out.append(While(Bin(">", Var("p", INT), IntLit(100), INT), d))
+                continue
             if it[0] == "scope":
                 out.extend(scope_stmt(it[1], env))
             elif it[0] == "if":
